@@ -860,6 +860,10 @@ def ctx_exit(eng, m, exc=None):
 
 # ------------------------------------------------------------------------------------ native calls
 def _len(eng, o):
+    if isinstance(o, SBytes) and any(type(x).__name__ == "Tok" for x in o.items):
+        from vf.pysym import tokens
+
+        return tokens.byte_len(eng, o.items)
     if isinstance(o, SBytes) and any(isinstance(x, Native) and hasattr(x, "n") for x in o.items):
         n = 0
         for x in o.items:
